@@ -53,15 +53,17 @@ type v07dState struct {
 	only   map[string]bool   // non-nil: top-level fields not listed are absent
 	why    map[string]string // why a path lost its Sorted fact
 	ever   map[string]bool   // paths that carried a Sorted fact at some point
+	has    map[string]bool   // paths every record is known to have (a Sorted or assigned path)
 }
 
 func v07dNewState() *v07dState {
-	return &v07dState{sorted: map[string]v07dFact{}, absent: map[string]bool{}, why: map[string]string{}, ever: map[string]bool{}}
+	return &v07dState{sorted: map[string]v07dFact{}, absent: map[string]bool{}, why: map[string]string{}, ever: map[string]bool{}, has: map[string]bool{}}
 }
 
 func (s *v07dState) setSorted(p string, f v07dFact) {
 	s.sorted[p] = f
 	s.ever[p] = true
+	s.has[p] = true
 }
 
 func v07dKey(p field.Path) string { return strings.Join(p, ".") }
@@ -125,6 +127,7 @@ func (s *v07dState) lookup(p string) (int, v07dFact, string) {
 // assigned: path p gets a new value of unknown order.
 func (s *v07dState) assigned(p, reason string) {
 	s.why[p] = reason
+	s.has[p] = true
 	for _, q := range v07dKeys(s.sorted) {
 		switch {
 		case q == p:
@@ -160,6 +163,11 @@ func (s *v07dState) dropped(p, reason string) {
 			continue
 		}
 		delete(s.sorted, q)
+	}
+	for _, q := range v07dKeys(s.has) {
+		if v07dUnder(q, p) {
+			delete(s.has, q)
+		}
 	}
 	s.absent[p] = true
 }
@@ -206,6 +214,13 @@ func (s *v07dState) cut(dsts, srcs []string) {
 			// cutting a path no record has adds nothing to the output
 			n.only[v07dTop(dsts[i])] = true
 		}
+		for q := range s.has {
+			if v07dUnder(q, srcs[i]) {
+				n.has[dsts[i]+q[len(srcs[i]):]] = true
+			} else if v07dUnder(srcs[i], q) {
+				n.has[dsts[i]] = true
+			}
+		}
 		// a sorted path strictly above the source loses the other subfields
 		for q := range s.sorted {
 			if q != srcs[i] && v07dUnder(srcs[i], q) {
@@ -218,14 +233,15 @@ func (s *v07dState) cut(dsts, srcs []string) {
 
 // rename dst:=src (dst must not exist, else the real operator yields an error value).
 func (s *v07dState) rename(dst, src string) {
-	for _, q := range v07dKeys(s.sorted) {
-		if v07dUnder(q, dst) || v07dUnder(dst, q) {
-			// dst exists in every record (a Sorted path is present): the real
-			// operator turns every record into error("rename: duplicate
-			// field"), after which no path exists any more
+	for _, q := range v07dKeys(s.has) {
+		if v07dUnder(q, dst) {
+			// dst exists in every record: the real operator turns every
+			// record into error("rename: duplicate field"), after which no
+			// path exists any more
 			s.sorted = map[string]v07dFact{}
 			s.absent = map[string]bool{}
 			s.only = map[string]bool{}
+			s.has = map[string]bool{}
 			return
 		}
 	}
@@ -250,6 +266,13 @@ func (s *v07dState) rename(dst, src string) {
 	for q := range abs {
 		s.absent[q] = true
 	}
+	srcHas := false
+	for q := range s.has {
+		srcHas = srcHas || v07dUnder(src, q) || v07dUnder(q, src)
+	}
+	if !srcHas {
+		delete(s.has, dst) // assigned() marked it; it exists only if src did
+	}
 	s.dropped(src, "rename")
 }
 
@@ -262,12 +285,17 @@ func (s *v07dState) scrambled(reason string, keepAbsent bool) {
 	if !keepAbsent {
 		s.absent = map[string]bool{}
 		s.only = nil
+		s.has = map[string]bool{}
 	}
 }
 
 func (s *v07dState) sortedOn(p string, dir int, nullsMax bool) {
 	s.scrambled("re-sorted-on-another-key", true)
+	had := s.has[p]
 	s.setSorted(p, v07dFact{dir: dir, nullsMax: nullsMax})
+	if !had {
+		delete(s.has, p) // sorting on a path does not make it exist
+	}
 }
 
 // merge of several legs that all carry state s (fork of identical legs).
@@ -612,6 +640,9 @@ func v07dSortkeyPropagation(maxChain int) {
 		for q := range st.ever {
 			right.ever[q] = true
 		}
+		for q := range st.has {
+			right.has[q] = true
+		}
 		for q := range st.absent {
 			right.absent[q] = true
 		}
@@ -656,8 +687,17 @@ func VerifH_C07_O5_sort_vs_groupby_order() {
 	seq := dag.Seq{&dag.DefaultScan{Kind: "DefaultScan"}, srt, sum}
 	_, err := o.propagateSortKey(seq, []order.SortKeys{nil})
 	verif.Assert(err == nil, "propagate-no-error")
-	verif.Assert(sum.InputSortDir == 1 || sum.InputSortDir == -1, "sort-then-summarize-gets-a-direction")
 	effDesc := (srt.Args[0].Order == order.Desc) != srt.Reverse
+	if sum.InputSortDir == 0 {
+		// no claim: nothing to ground.  The optimizer may (and after the fix of
+		// the null-placement defect does) decline a sort whose null placement the
+		// group-by's comparison cannot reproduce; it must still make the claim
+		// for the sorts that do match, else this obligation would be vacuous.
+		verif.Assert(srt.NullsFirst != effDesc, "matching-sort-then-summarize-gets-a-direction")
+		verif.Reach("no-claim")
+		return
+	}
+	verif.Assert(sum.InputSortDir == 1 || sum.InputSortDir == -1, "sort-then-summarize-gets-a-direction")
 	verif.Assert((sum.InputSortDir == -1) == effDesc, "claimed-direction-is-the-sorts-effective-direction")
 
 	zctx := zed.NewContext()
